@@ -504,6 +504,15 @@ class TaskDispatcher(object):
                 # Cancel the timeout previously set for this orphaned_response.
                 self.state_engine.event_dispatcher.clear_timeout(timeout_id)
                 del self.orphaned_responses[correlation_id]
+                """
+                If the response being held is not the one being handled now (a
+                processor that replied twice, say) it can never be matched
+                again, as the request is about to be completed: release it,
+                otherwise it would stay unacknowledged for as long as this
+                instance runs.
+                """
+                if m is not message:
+                    m.acknowledge(multiple=False)
 
             del self.pending_requests[correlation_id]
 
